@@ -44,6 +44,13 @@ def _bindings(stmt: ast.stmt):
 def returned_on(ctx, fn: FunctionInfo, env: dict) -> list[ast.AST] | str:
     """Resolved expressions `fn` can return under `env`, or RAISES when no
     return is reachable without an exception edge."""
+    # a local that only ever holds one of the specialised values carries it
+    env = dict(env)
+    from sa.valuation import single_defs
+    for name, val in single_defs(fn).items():
+        d = dotted(val) if isinstance(val, (ast.Name, ast.Attribute)) else None
+        if d is not None and d in env and name not in env:
+            env[name] = env[d]
     cfg = CFG(fn, env=env)
     live = cfg.reachable([cfg.entry], follow=lambda a, b, lab: lab != "exc")
     rets = [n for n in cfg.nodes if n in live and n.kind == "stmt" and
@@ -116,3 +123,56 @@ def simplify(ctx, fn: FunctionInfo, e: ast.AST, depth: int = 4) -> ast.AST:
             return node
 
     return S().visit(e)
+
+
+def call_oracle(ctx, fn: FunctionInfo, env: dict, depth: int = 2):
+    """CFG oracle: a test that is a call of an internal function whose
+    result, specialised on the constants the call passes (and the global
+    constants of `env`), is one constant - that constant's truth."""
+    from sa.rules.common import passed_expr
+
+    def value_of(e):
+        if isinstance(e, ast.Constant):
+            return True, e.value
+        d = dotted(e) if isinstance(e, (ast.Name, ast.Attribute)) else None
+        if d is not None and d in env:
+            return True, env[d]
+        return False, None
+
+    def oracle(test: ast.AST):
+        neg = False
+        while isinstance(test, ast.UnaryOp) and isinstance(test.op, ast.Not):
+            neg = not neg
+            test = test.operand
+        if not isinstance(test, ast.Call) or depth <= 0:
+            return None
+        targets = [t for t in ctx.internal_targets(fn, test)
+                   if not isinstance(t.node, ast.Lambda)]
+        if len(targets) != 1:
+            return None
+        callee = targets[0]
+        # globals (dotted names with a module prefix) stay valid in the callee
+        env2 = {k: v for k, v in env.items() if "." in k and
+                not k.startswith(("self.", "cls."))}
+        for p in callee.params():
+            a = passed_expr(test, callee, p)
+            if a is None:
+                continue
+            known, v = value_of(a)
+            if known:
+                env2[p] = v
+        r = returned_on(ctx, callee, env2)
+        if r == RAISES:
+            return None
+        vals = set()
+        for x in r:
+            if isinstance(x, ast.Constant):
+                vals.add(bool(x.value))
+            else:
+                return None
+        if len(vals) != 1:
+            return None
+        v = vals.pop()
+        return (not v) if neg else v
+
+    return oracle
